@@ -20,6 +20,7 @@ import PopsModel.Driver.Util
 import PopsModel.Model.Det
 import PopsModel.Model.DetPred
 import PopsModel.Model.DetNum
+import PopsModel.Model.DetCtor
 namespace Pops.Driver.DetEng
 open Pops Pops.Driver Pops.Det
 
@@ -341,8 +342,39 @@ def handleGcdf (args obs : List String) : String :=
     | _, _, _ => "BADLINE"
   | _ => "BADLINE"
 
+/-- `det.ctor <law> <scale> <shape> => ok | err:*`: direct construction of the law's class.
+    Property predicate (C14 "scale and shape in its domain", C20 "documented errors throw"), on the
+    observed outcome: a parameter the class validates (`Law.scaleCheck` / `Law.shapeCheck`,
+    `C14_parameters_rejected`) and that is outside its domain must be rejected with
+    `invalid_argument`; parameters inside the domain must be accepted. Then the model comparison
+    (`lawCtorCheck`): parameters the class does not validate (negative sigma of the normal law, ...). -/
+def handleCtor (args obs : List String) : String :=
+  match args, obs with
+  | [lawTok, sc, sh], [o] =>
+    match Law.ofName? lawTok, parseRat? sc, parseRat? sh with
+    | some law, some scale, some shape =>
+      if o != "ok" && !o.startsWith "err:" then "BADLINE" else
+      let invalid := decide (law.scaleCheck.rejects scale ∨ law.shapeCheck.rejects shape)
+      let inDom := decide (ParamsInDomain law scale shape)
+      let model := lawCtorCheck law scale shape
+      let what := s!"{law.name} scale={scale} shape={shape}"
+      if invalid && o == "ok" then
+        s!"PROPFAIL C14 parameters_rejected {what}: constructor accepted a parameter outside its domain ;; " ++
+        s!"PROPFAIL C20 documented_error det.ctor {what}: no exception, documented std::invalid_argument"
+      else if invalid && o != errTok .invalid_argument then
+        s!"MISMATCH det.ctor model={errTok .invalid_argument} ;; " ++
+        s!"PROPFAIL C20 documented_error det.ctor {what}: threw {o}, documented std::invalid_argument"
+      else if inDom && o != "ok" then
+        s!"PROPFAIL C14 parameters_rejected {what}: constructor rejected parameters inside the domain with {o}"
+      else match model with
+        | .ok _ => if o == "ok" then "ok" else "MISMATCH det.ctor model=ok"
+        | .error e => if o == errTok e then "ok" else s!"MISMATCH det.ctor model={errTok e}"
+    | _, _, _ => "BADLINE"
+  | _, _ => "BADLINE"
+
 def handle (st : State) (cmd : String) (inp obs : List String) : State × String :=
   match cmd, inp with
+  | "det.ctor", args => (st, handleCtor args obs)
   | "det.new", lawTok :: args => handleNew lawTok args obs
   | "det.prob", args => handleProb st args obs
   | "det.call", args => handleCall st args obs
